@@ -53,7 +53,15 @@ def cls_name(node):
         return "ROOT"
     if node.is_flat():
         return "FLAT:" + node.params["name"]
-    return re.sub(r"\.nets\..*$", "", node.params["name"])
+    n = re.sub(r"\.nets\..*$", "", node.params["name"])
+    # a test is the same test whether it was composed as a leaf of the selected set or as setup of another leaf ("all.")
+    for m in MAIN_SETS:
+        if n.startswith(m + "."):
+            return n[len(m) + 1:]
+    return n
+
+
+MAIN_SETS = ["normal.nongui", "normal.gui", "nonleaves", "leaves", "normal", "minimal", "all"]
 
 
 def node_states(node, do):
@@ -158,9 +166,11 @@ class Env:
 class Schedule:
     """environment choices of one execution, drawn from a seed (or prescribed explicitly)"""
 
-    def __init__(self, seed, statuses=("PASS",), weights=None, durations=(0.05, 0.17, 0.33, 1.3, 7.7), script=None, lost=0.0):
+    def __init__(self, seed, statuses=("PASS",), weights=None, durations=(0.05, 0.17, 0.33, 1.3, 7.7), script=None, lost=0.0, persist=None):
         self.rng = random.Random(seed)
         self.statuses, self.weights, self.durations, self.script, self.lost = list(statuses), weights, list(durations), script or {}, lost
+        # persistent outcome of one test or creation step: {"<class>|main" or "<class>|pre": status or "LOST"}
+        self.persist = persist or {}
 
     def outcome(self, cls, pre, w, k):
         key = "%s|%s|%d" % (cls, "pre" if pre else "main", k)
@@ -170,7 +180,11 @@ class Schedule:
         st = self.rng.choices(self.statuses, weights=self.weights)[0]
         if self.lost and self.rng.random() < self.lost:
             st = None
-        return st, self.rng.choice(self.durations)
+        dur = self.rng.choice(self.durations)
+        pk = "%s|%s" % (cls, "pre" if pre else "main")
+        if pk in self.persist:
+            st = None if self.persist[pk] == "LOST" else self.persist[pk]
+        return st, dur
 
 
 class Recorder:
